@@ -6,7 +6,7 @@ OUT=/verif/seeded/RESULTS.txt
 for d in ${@:-$(ls seeded | grep -v RESULTS)}; do
   [ -f seeded/$d/patch.diff ] || continue
   P=$(python3 -c "import json;print(json.load(open('seeded/$d/meta.json'))['property'])")
-  grep -q "\"$P\"" MANIFEST.json || { echo "$d $P not-claimed" >> $OUT; continue; }
+  python3 -c "import json,sys;m=json.load(open('MANIFEST.json'));sys.exit(0 if any(c['property_id']=='$P' for c in m['checks']) else 1)" || { echo "$d $P not-claimed (property is not applicable)" >> $OUT; continue; }
   R=$(timeout 2400 tools/try_seed.sh $d $P 2>&1)
   if echo "$R" | grep -q "cannot apply"; then V="does-not-apply-any-more"
   elif echo "$R" | grep -q "^VIOLATION"; then V="VIOLATION $(echo "$R" | grep '^VIOLATION' | head -1 | sed 's/.*target=\([^ ]*\) obligations=\([^ ]*\).*/\1 \2/' | cut -c1-160)$(echo "$R" | grep '^VIOLATION' | head -1 | grep -q no-failing-input-found && echo ' [no native input]' || echo ' [replayed natively]')"
